@@ -537,6 +537,9 @@ int disasm_arm(
   opcode = memory->read32(address);
   //printf("%08x: opcode=%08x\n", address, opcode);
 
+  // In case nothing in the table matches.
+  strcpy(instruction, "???");
+
   int n = 0;
   while (table_arm[n].instr != NULL)
   {
